@@ -56,5 +56,13 @@ func corpusC09() []*case09 {
 		{Prop: "C09", Answers: []ans09{
 			{Name: "p0", Nodes: map[string]cap09{"n0": {Cap: 3, U: 512, R: 256, W: 8}, "n1": {Cap: math.MaxInt, U: 100, R: 0, W: 8}}},
 			{Name: "p1", Nodes: map[string]cap09{"n0": {Cap: 2, U: 1024, R: 512, W: 4}, "n1": {Cap: 5, U: 7, R: 9, W: 4}}}}},
+		// a zero-weight plugin's capacity binds whatever the order (escaped mutant: zero-weight later answers skipped)
+		{Prop: "C09", Answers: []ans09{
+			{Name: "p0", Nodes: map[string]cap09{"n1": {Cap: 2, U: 512, R: 256, W: 0}}},
+			{Name: "p1", Nodes: map[string]cap09{"n1": {Cap: 10, U: 100, R: 50, W: 4}}}}},
+		{Prop: "C09", Answers: []ans09{
+			{Name: "p0", Nodes: map[string]cap09{"n0": {Cap: 7, U: 0, R: 0, W: 4}, "n1": {Cap: 9, U: 1, R: 1, W: 4}}},
+			{Name: "p1", Nodes: map[string]cap09{"n0": {Cap: 3, U: 2048, R: 1024, W: 0}}},
+			{Name: "p2", Nodes: map[string]cap09{"n0": {Cap: 5, U: 10, R: 10, W: 0}, "n1": {Cap: 1, U: 10, R: 10, W: 0}}}}},
 	}
 }
